@@ -129,6 +129,18 @@ def cases() -> List[Dict[str, Any]]:
         "pkg/sub.py": "from . import util\nclass X:\n    pass\n",
         "pkg/util.py": "def helper(): pass\n",
     }, ["other.py", "pkg"], cyclic=True))
+    # a pipeline of modules without any cycle, longer than any depth a cautious implementation might stop following imports at:
+    # each stage derives from the next one's class and publishes the next one's helper
+    for n in (30, 60):
+        files = {}
+        for k in range(n):
+            if k == n - 1:
+                files[f"s{k:02d}.py"] = f"'The last stage.'\nclass Stage:\n    'Stage {k}.'\n    def run(self):\n        'doc'\ndef helper_{k}():\n    'doc'\n"
+            else:
+                files[f"s{k:02d}.py"] = (f"'Stage {k}.'\nfrom s{k + 1:02d} import Stage as NextStage, helper_{k + 1}\n__all__ = ['Stage', 'helper_{k + 1}']\n"
+                                         f"class Stage(NextStage):\n    'Stage {k}.'\n    limit = {k}\n    'doc'\ndef helper_{k}():\n    'doc'\n")
+        out.append(hw(f"pipeline-of-{n}-modules", files, sorted(files)))
+        out.append(hw(f"pipeline-of-{n}-modules-in-a-package", {"pl/__init__.py": "", **{"pl/" + k: v.replace("from s", "from pl.s") for k, v in files.items()}}, ["pl"]))
     return out
 
 
@@ -140,6 +152,20 @@ def write(case: Dict[str, Any], base: Path) -> List[Path]:
     return [base / r for r in case["roots"]]
 
 
+def _orders(entries: List[Any]) -> List[List[Any]]:
+    """Every order of a few entries; of many: as listed, reversed, and some shuffles (fixed seed)."""
+    if len(entries) <= 5:
+        return [list(p) for p in itertools.permutations(entries)]
+    import random
+    rng = random.Random(len(entries))
+    out = [list(entries), list(reversed(entries))]
+    for _ in range(4):
+        e = list(entries)
+        rng.shuffle(e)
+        out.append(e)
+    return out
+
+
 def rank_orders(base: Path, roots: Sequence[Path]) -> Iterator[Tuple[List[Path], Dict[str, int]]]:
     """Every admissible schedule: permutations of the roots x permutations of the entries of every package directory."""
     dirs: List[Path] = []
@@ -149,8 +175,8 @@ def rank_orders(base: Path, roots: Sequence[Path]) -> Iterator[Tuple[List[Path],
     per_dir = []
     for d in dirs:
         entries = [e for e in sorted(d.iterdir()) if e.name != "__init__.py" and not e.name.startswith(".")]
-        per_dir.append([list(p) for p in itertools.permutations(entries)])
-    for rp in itertools.permutations(list(roots)):
+        per_dir.append(_orders(entries))
+    for rp in _orders(list(roots)):
         for combo in itertools.product(*per_dir):
             rank = {str(e): i for perm in combo for i, e in enumerate(perm)}
             yield list(rp), rank
